@@ -392,3 +392,76 @@ pub fn exec_strs(run: u64, prog: &Value, out: &mut Out) {
     }
     out.emit(json!({"ev":"strs","run":run,"what":what,"strs":get(prog, "strs"),"outs":outs,"panics":panics}));
 }
+
+// ------------------------------------------------------------------------------------------------
+// Sweeps of big finite domains: generic, ACPI-agnostic digests of the real encoder's outputs per chunk
+// (the same arithmetic as spec/Digest.tla; nothing here knows what the outputs should be).
+const P1: u64 = 32749;
+const P2: u64 = 32719;
+const P3: u64 = 32713;
+fn h1(o: &[u8]) -> u64 {
+    let mut a = (31 * o.len() as u64) % P1;
+    for (j, b) in o.iter().enumerate() {
+        a = (a + (j as u64 + 1) * *b as u64) % P1;
+    }
+    a
+}
+fn h2(o: &[u8]) -> u64 {
+    let mut a = (17 * o.len() as u64) % P2;
+    for (j, b) in o.iter().enumerate() {
+        a = (a + (2 * (j as u64 + 1) + 1) * *b as u64) % P2;
+    }
+    a
+}
+
+/// {"fam":"sweep","what":W,"bases":[..],"n":N}: for each base one event with the digests of outputs k = 0..N-1.
+pub fn exec_sweep(run: u64, prog: &Value, out: &mut Out) {
+    let what = str_of(get(prog, "what"));
+    let n = u64_of(get(prog, "n"));
+    for basev in list(prog, "bases") {
+        let base = u64_of(basev);
+        let r = guarded(|| {
+            let mut d = [0u64; 3];
+            let mut variants: Vec<[u64; 3]> = Vec::new();
+            let carriers: &[&str] = if what == "u32" { &["u32", "u64", "usize"] } else { &[""] };
+            for carrier in carriers {
+                d = [0, 0, 0];
+                let mut buf: Vec<u8> = Vec::with_capacity(16);
+                for k in 0..n {
+                    buf.clear();
+                    match what {
+                        "pkglen_incl" => buf.extend_from_slice(&aml::verif_create_pkg_length((base + k) as usize, true)),
+                        "pkglen_excl" => buf.extend_from_slice(&aml::verif_create_pkg_length((base + k) as usize, false)),
+                        "u32" => {
+                            let v = base * 65536 + k;
+                            match *carrier {
+                                "u32" => (v as u32).to_aml_bytes(&mut buf),
+                                "u64" => v.to_aml_bytes(&mut buf),
+                                _ => (v as usize).to_aml_bytes(&mut buf),
+                            }
+                        }
+                        "eisa" => {
+                            let hex = b"0123456789ABCDEF";
+                            let id = [
+                                b'A' + (base / 676) as u8, b'A' + ((base / 26) % 26) as u8, b'A' + (base % 26) as u8,
+                                hex[((k >> 12) & 15) as usize], hex[((k >> 8) & 15) as usize], hex[((k >> 4) & 15) as usize], hex[(k & 15) as usize],
+                            ];
+                            aml::EISAName::new(std::str::from_utf8(&id).unwrap()).to_aml_bytes(&mut buf)
+                        }
+                        w => panic!("sweep {w}"),
+                    }
+                    let (a, b) = (h1(&buf), h2(&buf));
+                    d[0] = (d[0] + ((k % 251) + 1) * a) % P1;
+                    d[1] = (d[1] + ((k % 241) + 1) * b) % P2;
+                    d[2] = (d[2] + (a * b) % P3) % P3;
+                }
+                variants.push(d);
+            }
+            variants
+        });
+        match r {
+            Ok(vs) => out.emit(json!({"ev":"sweep","run":run,"what":what,"base":base,"n":n,"ds":vs,"panic":false})),
+            Err(()) => out.emit(json!({"ev":"sweep","run":run,"what":what,"base":base,"n":n,"ds":[],"panic":true})),
+        }
+    }
+}
